@@ -141,6 +141,8 @@ def pipeline(chk, prefix):
             args["labels"] = rng.choice([["x"], ["x", "x"], ["x", "y", "x"]])
         if rng.random() < 0.3:
             args["revoked"] = False
+        if rng.random() < 0.5:        # content that arrives already marked at object level
+            args["object_marking_refs"] = [IM.MARK[m] for m in rng.sample(["M1", "M2", "M3"], rng.choice([1, 2]))]
         try:
             obj = getattr(O.module(v), cls)(**args)
         except Exception as e:  # noqa
@@ -149,7 +151,10 @@ def pipeline(chk, prefix):
         if rng.random() < 0.3:
             obj = json.loads(obj.serialize())
         kind = "%s-%s-%s" % (v, typ, "dict" if isinstance(obj, dict) else "obj")
+        earlier = [obj]
         for i in range(rng.randint(4, 12)):
+            if rng.random() < 0.3:
+                obj = rng.choice(earlier)        # several operations start from the same object (it must still be what it was)
             tree = IM.tree_of(O.plain(dict(obj)))
             ps = [p for p in IM.paths(tree) if not IM.lenient(p)]
             near = [p[:-1] + ("zzz",) for p in rng.sample(ps, min(2, len(ps)))] + [("zzz",), ("labels", "[9]"), ("name", "[0]"), ("created", "foo")]
@@ -161,8 +166,8 @@ def pipeline(chk, prefix):
                 if s not in ss:
                     ss.append(s)
             k = rng.random()
-            op = "add" if k < 0.3 else "remove" if k < 0.4 else "clear" if k < 0.48 else "set" if k < 0.56 else "get" if k < 0.7 else "is_marked" if k < 0.8 \
-                else "is_marked_any" if k < 0.85 else rng.choice(["addO", "removeO", "setO", "clearO", "getO", "is_markedO"])
+            op = "add" if k < 0.3 else "remove" if k < 0.4 else "clear" if k < 0.48 else "set" if k < 0.56 else "get" if k < 0.7 else "is_marked" if k < 0.76 \
+                else "is_marked_any" if k < 0.8 else rng.choice(["addO", "addO", "addO", "removeO", "setO", "clearO", "getO", "is_markedO"])
             ms = rng.sample(["M1", "M2", "M3", "L1", "L2"] if v == "2.1" else ["M1", "M2", "M3"], rng.choice([1, 1, 2]))
             if op in ("is_marked", "is_markedO"):
                 ms = ms[:1]
@@ -181,6 +186,7 @@ def pipeline(chk, prefix):
             line["host"] = kind
             line["stage"] = "S3"
             lines.append(line)
+            earlier.append(obj)
         chk.traces += 1
     return lines
 
